@@ -8,6 +8,7 @@ import (
 
 	"github.com/dgraph-io/badger/v3"
 	"github.com/wrgl/wrgl/pkg/objects"
+	"github.com/wrgl/wrgl/pkg/verifhook"
 )
 
 type Store struct {
@@ -37,12 +38,18 @@ func (s *Store) Get(k []byte) ([]byte, error) {
 }
 
 func (s *Store) Set(k, v []byte) error {
+	if err := verifhook.BeforeWrite("obj-set"); err != nil {
+		return err
+	}
 	return s.db.Update(func(txn *badger.Txn) error {
 		return txn.Set(k, v)
 	})
 }
 
 func (s *Store) Delete(k []byte) error {
+	if err := verifhook.BeforeWrite("obj-delete"); err != nil {
+		return err
+	}
 	return s.db.Update(func(txn *badger.Txn) error {
 		return txn.Delete(k)
 	})
@@ -93,6 +100,9 @@ func (s *Store) FilterKey(prefix []byte) (keys [][]byte, err error) {
 }
 
 func (s *Store) Clear(prefix []byte) error {
+	if err := verifhook.BeforeWrite("obj-clear"); err != nil {
+		return err
+	}
 	return s.db.DropPrefix(prefix)
 }
 
